@@ -725,3 +725,116 @@ func resolveSpill(v ssa.Value) ssa.Value {
 	}
 	return v
 }
+
+// pathOf renders the access path of a value ("msg.Req.IRequestId", "adp.resp", "len(cur)"):
+// loads, conversions and interface boxing are transparent; spilled parameters and closure
+// free variables print under the source variable's name, so the same source expression yields the
+// same path in a function and in the closures it creates.
+func pathOf(v ssa.Value) string { return pathOfD(v, 0) }
+
+func pathOfD(v ssa.Value, d int) string {
+	if v == nil {
+		return "<nil>"
+	}
+	if d > 12 {
+		return "…"
+	}
+	switch x := v.(type) {
+	case *ssa.Parameter:
+		return x.Name()
+	case *ssa.FreeVar:
+		return x.Name()
+	case *ssa.Global:
+		return x.Name()
+	case *ssa.Const:
+		if x.Value == nil {
+			return "nil"
+		}
+		return x.Value.ExactString()
+	case *ssa.Alloc:
+		if sv, ok := singleStore(x); ok {
+			if p, isP := sv.(*ssa.Parameter); isP {
+				return p.Name()
+			}
+		}
+		if x.Comment != "" {
+			return x.Comment
+		}
+		return x.Name()
+	case *ssa.UnOp:
+		if x.Op == token.MUL {
+			return pathOfD(x.X, d+1)
+		}
+		return x.Op.String() + pathOfD(x.X, d+1)
+	case *ssa.FieldAddr:
+		st := derefStruct(x.X.Type())
+		if st == nil {
+			return pathOfD(x.X, d+1) + ".?"
+		}
+		return pathOfD(x.X, d+1) + "." + st.Field(x.Field).Name()
+	case *ssa.Field:
+		st := derefStruct(x.X.Type())
+		if st == nil {
+			return pathOfD(x.X, d+1) + ".?"
+		}
+		return pathOfD(x.X, d+1) + "." + st.Field(x.Field).Name()
+	case *ssa.IndexAddr:
+		return pathOfD(x.X, d+1) + "[" + pathOfD(x.Index, d+1) + "]"
+	case *ssa.Index:
+		return pathOfD(x.X, d+1) + "[" + pathOfD(x.Index, d+1) + "]"
+	case *ssa.Lookup:
+		return pathOfD(x.X, d+1) + "[" + pathOfD(x.Index, d+1) + "]"
+	case *ssa.Convert:
+		return pathOfD(x.X, d+1)
+	case *ssa.ChangeType:
+		return pathOfD(x.X, d+1)
+	case *ssa.MakeInterface:
+		return pathOfD(x.X, d+1)
+	case *ssa.ChangeInterface:
+		return pathOfD(x.X, d+1)
+	case *ssa.TypeAssert:
+		return pathOfD(x.X, d+1)
+	case *ssa.Extract:
+		return pathOfD(x.Tuple, d+1) + "#" + string(rune('0'+x.Index))
+	case *ssa.Call:
+		name := builtinName(&x.Call)
+		if name == "" {
+			if o := calleeObj(&x.Call); o != nil {
+				name = o.Name()
+			} else {
+				name = "call"
+			}
+		}
+		var as []string
+		args := x.Call.Args
+		if x.Call.IsInvoke() {
+			as = append(as, pathOfD(x.Call.Value, d+1))
+		}
+		for _, a := range args {
+			as = append(as, pathOfD(a, d+1))
+		}
+		return name + "(" + strings.Join(as, ",") + ")"
+	case *ssa.BinOp:
+		return "(" + pathOfD(x.X, d+1) + x.Op.String() + pathOfD(x.Y, d+1) + ")"
+	case *ssa.Slice:
+		lo, hi := "", ""
+		if x.Low != nil {
+			lo = pathOfD(x.Low, d+1)
+		}
+		if x.High != nil {
+			hi = pathOfD(x.High, d+1)
+		}
+		return pathOfD(x.X, d+1) + "[" + lo + ":" + hi + "]"
+	case *ssa.Phi:
+		if x.Comment != "" {
+			return x.Comment
+		}
+	case *ssa.MakeChan:
+		return "make(chan)"
+	case *ssa.MakeSlice:
+		return "make([])"
+	case *ssa.MakeMap:
+		return "make(map)"
+	}
+	return v.Name()
+}
